@@ -5,6 +5,7 @@
     and (for the pool) thread schedule.  How the interfaces compose them, the depth-first list of
     shards, and the tf.data path are checked on the implementation (see DESIGN.md, C02). *)
 Require Import Sedpack.Model.Base Sedpack.Generated.GenIter Sedpack.Model.Iter Sedpack.Proofs.IterProofs.
+Require Import Sedpack.Model.PipeBase Sedpack.Generated.GenPipeline Sedpack.Proofs.PipelineProofs.
 Require Import Sedpack.Generated.GenLazyPool Sedpack.Model.LazyPool Sedpack.Proofs.LazyPoolInv Sedpack.Proofs.LazyPoolResult.
 From Coq Require Import Permutation.
 
@@ -50,6 +51,36 @@ Proof.
   - exact (proj1 (finished_exact_lemma A B f T HT xs s Hr Hpc)).
 Qed.
 Print Assumptions c02_lazy_pool_exact.
+
+(** The interfaces themselves (repeat=False), as compositions regenerated from dataset_iteration.py: for every selection of
+    shards, decoder [read], [process_record], shuffle size, thread count, random sequences and completion order of the pool,
+    one pass yields a permutation of [spec] = every example of every selected shard, processed once. *)
+Theorem c02_as_numpy_iterator_exactly_once :
+  forall (path ex : Type) (read : path -> list ex) (process : ex -> ex) pickA permA pickB permB,
+  (forall j len, 0 < len -> pickA j len < len) -> (forall j len, 0 < len -> pickB j len < len) ->
+  (forall l, Permutation (permA l) l) -> (forall l, Permutation (permB l) l) ->
+  forall shuffle hp paths, paths <> [] ->
+  Permutation (ani path ex read process pickA permA pickB permB shuffle hp paths) (spec path ex read process hp paths).
+Proof. exact ani_exactly_once. Qed.
+Print Assumptions c02_as_numpy_iterator_exactly_once.
+
+Theorem c02_as_numpy_iterator_concurrent_exactly_once :
+  forall (path ex : Type) (read : path -> list ex) (process : ex -> ex) pickA permA pickB pool_perm,
+  (forall j len, 0 < len -> pickA j len < len) -> (forall j len, 0 < len -> pickB j len < len) ->
+  (forall l, Permutation (permA l) l) -> (forall l, Permutation (pool_perm l) l) ->
+  forall shuffle T hp paths, paths <> [] -> 1 <= T ->
+  Permutation (anc path ex read process pickA permA pickB pool_perm shuffle T hp paths) (spec path ex read process hp paths).
+Proof. exact anc_exactly_once. Qed.
+Print Assumptions c02_as_numpy_iterator_concurrent_exactly_once.
+
+Theorem c02_as_numpy_iterator_async_exactly_once :
+  forall (path ex : Type) (read : path -> list ex) (process : ex -> ex) pickA permA pickB,
+  (forall j len, 0 < len -> pickA j len < len) -> (forall j len, 0 < len -> pickB j len < len) ->
+  (forall l, Permutation (permA l) l) ->
+  forall shuffle T hp paths, paths <> [] -> 1 <= T ->
+  Permutation (ana path ex read process pickA permA pickB shuffle T hp paths) (spec path ex read process hp paths).
+Proof. exact ana_exactly_once. Qed.
+Print Assumptions c02_as_numpy_iterator_async_exactly_once.
 
 (** Non-vacuity with the concrete generator of the code (r*1664525+1013904223 mod 2^32). *)
 Theorem c02_nonvacuous :
